@@ -9,9 +9,18 @@
   (suffix tables in test order, io_open_src on every constructible file kind × mode bits × flags, io_open_dest/io_close
   on every kind of pre-existing target × flags, io_copy_attrs on all 4096 modes × 3 group scenarios, set_exit_status on
   all states) equals the model; `tools/props/c19.py` additionally runs model vs real functions vs real `xz` binary.
+
+  Metadata as a SEQUENCE (section "metadata: the order of the system calls"): statements over `Model/Attrs.lean`
+  (write phase with the sparse-file logic + io_close() as a list of system calls with a clock; `OkRun`, `okCloseEvents`,
+  `okAfterClose` are defined in `Lemmas/Attrs.lean`). Tie: `gen_order_rows` — the system calls of the real `xz` binary
+  observed through an LD_PRELOAD shim on nine scenarios (incl. output ending in a sparse hole) are exactly the model's
+  trace; `tools/props/c19.py` compares the model's predicted mode/uid/gid/atime/mtime(ns)/size with lstat of the real
+  target on every in-process and end-to-end case that produces a file.
 -/
 import XzVerif.Model.Suffix
 import XzVerif.Lemmas.Suffix
+import XzVerif.Model.Attrs
+import XzVerif.Lemmas.Attrs
 import XzVerif.Gen.C19
 
 namespace XzVerif.C19
@@ -73,6 +82,40 @@ theorem gen_mode_group_fail : Gen.C19.modeGroupFail = modeTableExpected true := 
 theorem gen_exit_rows :
     Gen.C19.exitRows = [0, 1, 2].flatMap fun o => [1, 2].map fun n =>
       [o, n, (setExitStatus (Status.ofCode o) (Status.ofCode n)).toNat] := by decide
+
+/-- `IO_BUFFER_SIZE`, the unit of the sparse-file logic -/
+theorem gen_io_buffer_size : Gen.C19.ioBufferSize = Attrs.ioBufferSize := by decide
+
+/-- The model run that belongs to a row of `Gen.C19.orderParams` / `orderChunks` (see the comment in Gen/C19.lean):
+    the options as given to `xz`, the source's lstat, and the io_write() calls implied by the output data. -/
+def orderRun (p : List Nat) (chunks : List (Nat × Nat)) : Attrs.Run :=
+  match p with
+  | [d, keep, noSparse, noSync, smode, suid, sgid, sat, smt, puid, dgid, gfail] =>
+    Attrs.cliRun (d == 1) (keep == 1) (noSparse == 1) (noSync == 1) smode suid sgid sat smt puid dgid false (gfail == 1)
+      (chunks.map fun c => List.replicate c.1 (if c.2 == 1 then 0 else 1))
+  | _ => default
+
+/-- **Order bridge.** On every measured scenario (small file; output ending in a sparse hole; hole in the middle; all-zero
+    output; `--keep`; `--no-sparse`; `--no-sync`; compression; fchown(group) failing) the system calls the REAL `xz` made
+    on its file pair after opening the destination — names, order and arguments (sizes, seek offsets, uid, gid, mode,
+    atime/mtime in ns) — are exactly the trace of `Attrs.run`. -/
+theorem gen_order_rows :
+    Gen.C19.orderObserved =
+      List.zipWith (fun p c => (Attrs.run (orderRun p c)).st.trace.map Attrs.Ev.code)
+        Gen.C19.orderParams Gen.C19.orderChunks := by decide +kernel
+
+/-- a [lseek n] [write 1] pair directly followed by the first attribute call: the "last write" of io_close() -/
+def hasLastWrite : List (List Nat) → Bool
+  | [2, _] :: [1, 1] :: [3, u] :: rest => true || hasLastWrite ([3, u] :: rest)
+  | _ :: rest => hasLastWrite rest
+  | [] => false
+
+/-- The measurement is not vacuous: nine scenarios, at least four of which end in the last write of a sparse hole,
+    and at least one without it. -/
+theorem gen_order_covers :
+    Gen.C19.orderObserved.length = 9 ∧ Gen.C19.orderParams.length = 9 ∧ Gen.C19.orderChunks.length = 9 ∧
+    (Gen.C19.orderObserved.filter hasLastWrite).length ≥ 4 ∧
+    (Gen.C19.orderObserved.filter fun t => !hasLastWrite t).length ≥ 1 := by decide
 
 /-! ## naming: round trip -/
 
@@ -607,7 +650,81 @@ theorem skip_touches_nothing (c : FileCase) (h : ∀ t m, (runFile c).action ≠
     obtain ⟨t, m, hd⟩ := (keep_never_unlinks c).2 hr
     exact absurd hd (h t m)
 
+/-! ## metadata: the order of the system calls (Model/Attrs.lean) -/
+
+/-- **attrs_copied_exactly.** After a successful run to a regular file (`OkRun`: coding succeeded and none of lseek /
+    write / fchmod / futimens / fsync / close failed; fchown MAY fail), for EVERY sequence of io_write() calls — including
+    one that ends in all-zero buffers, i.e. in a pending sparse hole that io_close() finishes with lseek + a one-byte
+    write — with or without `dest_try_sparse`, `--keep`, `opt_synchronous`, as root or not:
+    the target's content is the concatenation of the written buffers (holes read as zeros), its mtime and atime are the
+    source's (ns), its mode is `destMode` of the source's mode with the group-fallback rule applied iff the new file got
+    another group and fchown(group) failed (`mode_never_broader` is about that value), its owner is the source's iff
+    fchown(owner) succeeded, its group the source's iff fchown(group) succeeded or it already was.
+    Every write(2) of the model sets mtime to the strictly increasing clock, so `mtime = src.mtime` says that no write
+    happens after futimens. -/
+theorem attrs_copied_exactly (r : Attrs.Run) (h : Attrs.OkRun r) :
+    (Attrs.run r).st.dest.content = r.chunks.flatten ∧
+    (Attrs.run r).st.dest.mtime = r.src.mtime ∧ (Attrs.run r).st.dest.atime = r.src.atime ∧
+    (Attrs.run r).st.dest.mode = destMode r.src.mode (decide (r.destGid ≠ r.src.gid) && !r.env.groupOk) ∧
+    (Attrs.run r).st.dest.uid = (if r.env.ownerOk then r.src.uid else r.procUid) ∧
+    (Attrs.run r).st.dest.gid = (if r.env.groupOk then r.src.gid else r.destGid) ∧
+    (Attrs.run r).success = true ∧
+    (Attrs.run r).srcRemoved = (!r.cfg.srcIsStdin && !r.cfg.keep && r.env.srcSame && r.env.srcUnlinkOk) := by
+  have hd := Attrs.run_ok_dest r h
+  obtain ⟨_, _, _, hs, hr⟩ := Attrs.run_ok_trace r h
+  rw [hd]
+  exact ⟨rfl, rfl, rfl, rfl, rfl, rfl, hs, hr⟩
+
+/-- **Shape of the trace.** A successful run consists of writes and seeks only, followed by exactly
+    fchown(owner), [fchown(group) iff the gid differs], fchmod, futimens, [fsync, fsync(dir), close(dir) iff synchronous],
+    close(dest), [close(src), [unlink(src) iff not --keep and the name still is the opened file]]. -/
+theorem attrs_trace_shape (r : Attrs.Run) (h : Attrs.OkRun r) :
+    ∃ ws, (∀ e ∈ ws, e.isData = true) ∧ (Attrs.run r).st.trace = ws ++ Attrs.okCloseEvents r := by
+  obtain ⟨ws, hd, ht, _, _⟩ := Attrs.run_ok_trace r h
+  exact ⟨ws, hd, ht⟩
+
+/-- **Every write precedes futimens**: wherever a futimens call sits in the trace of a successful run, it carries the
+    source's times and no write to the destination follows it. -/
+theorem no_write_after_futimens (r : Attrs.Run) (h : Attrs.OkRun r) (pre post : List Attrs.Ev) (a m : Nat)
+    (hsplit : (Attrs.run r).st.trace = pre ++ .utimens a m :: post) :
+    a = r.src.atime ∧ m = r.src.mtime ∧ ∀ e ∈ post, e.isWrite = false :=
+  Attrs.no_write_after_utimens r h pre post a m hsplit
+
+/-- **futimens precedes close(dest)**, and nothing but close(src) / unlink(src) follows close(dest). -/
+theorem futimens_before_close (r : Attrs.Run) (h : Attrs.OkRun r) (pre post : List Attrs.Ev)
+    (hsplit : (Attrs.run r).st.trace = pre ++ .closeDest :: post) :
+    .utimens r.src.atime r.src.mtime ∈ pre ∧ (∀ e ∈ pre, e ≠ .closeSrc ∧ e ≠ .unlinkSrc ∧ e ≠ .unlinkDest) ∧
+    post = Attrs.okAfterClose r :=
+  Attrs.utimens_before_close r h pre post hsplit
+
+/-- **unlink(src) is last, only after close(dest) succeeded, only without `--keep`** — for EVERY run of the model
+    (any destination kind, any combination of failing system calls, `success` true or false). -/
+theorem unlink_src_last (r : Attrs.Run) (h : Attrs.Ev.unlinkSrc ∈ (Attrs.run r).st.trace) :
+    r.cfg.keep = false ∧ r.cfg.srcIsStdin = false ∧ r.success = true ∧ (Attrs.run r).success = true ∧
+    (r.cfg.destKind = .file → r.env.closeOk = true) ∧
+    ∃ pre, (Attrs.run r).st.trace = pre ++ [.closeSrc, .unlinkSrc] ∧ Attrs.Ev.unlinkSrc ∉ pre ∧ Attrs.Ev.closeSrc ∉ pre ∧
+      Attrs.Ev.unlinkDest ∉ pre ∧ (r.cfg.destKind = .file → Attrs.Ev.closeDest ∈ pre) :=
+  Attrs.unlink_src_last r h
+
 /-! ## non-vacuity: the hypotheses are satisfiable, the exception classes are inhabited -/
+
+/-- 8192 data bytes followed by two all-zero buffers and the final empty io_write(): the output ends in a sparse hole -/
+private def sparseTailRun (keep : Bool) : Attrs.Run :=
+  Attrs.cliRun true keep false false 0o4754 1234 2345 111 222 0 0 false true
+    [List.replicate 8192 1, List.replicate 8192 0, List.replicate 8192 0, []]
+
+example : Attrs.OkRun (sparseTailRun false) := by constructor <;> decide
+example : (Attrs.run (sparseTailRun false)).st.trace =
+    [.write 8192, .seek 16383, .write 1, .chownOwner 1234, .chownGroup 2345, .chmod 0o744, .utimens 111 222,
+     .fsync, .fsyncDir, .closeDir, .closeDest, .closeSrc, .unlinkSrc] := by decide +kernel
+-- the last write really moves mtime (to the clock: the 3rd system call), and futimens afterwards sets it to the source's
+example : (Attrs.lastWrite (sparseTailRun false).cfg (sparseTailRun false).env true
+      (Attrs.runWrites true (Attrs.initSt 0 0 0) (sparseTailRun false).chunks)).1.dest.mtime = 3 ∧
+    (Attrs.run (sparseTailRun false)).st.dest.mtime = 222 := by decide +kernel
+-- a failing close(dest): the junk is unlinked, the source stays
+example : (Attrs.run { sparseTailRun false with env := { (sparseTailRun false).env with closeOk := false } }).st.trace =
+    [.write 8192, .seek 16383, .write 1, .chownOwner 1234, .chownGroup 2345, .chmod 0o744, .utimens 111 222,
+     .fsync, .fsyncDir, .closeDir, .closeDest, .unlinkDest, .closeSrc] := by decide +kernel
 
 private def foo : Name := [0x66, 0x6f, 0x6f]
 private def bXz : Name := [0x2e, 0x62] ++ sXz          -- ".b.xz"
